@@ -64,7 +64,7 @@ def openStep (script : ElemScript) (sels : List SelReg) (st : List OpenElem) (or
   | _ => st
 
 /-- Is handler `h` in scope: document-level (`n ≤ h`), or some open element matched selector `h`. -/
-def inScope (n : Nat) (st : List OpenElem) (h : HId) : Bool :=
+def inScope (n : Nat) (st : List OpenElem) (h : Nat) : Bool :=
   decide (n ≤ h) || st.any fun e => e.matched.contains h
 
 /-- The invocations promised for one event, given the open elements before it. -/
